@@ -4,6 +4,8 @@
 package checks
 
 import (
+	"crypto/sha256"
+	"encoding/hex"
 	"encoding/json"
 	"fmt"
 	"os"
@@ -278,7 +280,13 @@ func sanitize(s string) string {
 func (c *Ctx) writeReplay(w *Witness) string {
 	dir := filepath.Join(Root, "replays", c.ID)
 	os.MkdirAll(dir, 0o755)
-	path := filepath.Join(dir, sanitize(w.Fingerprint)+".json")
+	name := sanitize(w.Fingerprint)
+	if len(w.Fingerprint) > 60 {
+		// long fingerprints: a readable head and a digest, so that two of them never share a file
+		sum := sha256.Sum256([]byte(w.Fingerprint))
+		name = sanitize(w.Fingerprint[:60]) + "-" + hex.EncodeToString(sum[:5])
+	}
+	path := filepath.Join(dir, name+".json")
 	w.Env = []string{"HOME=/nonexistent", "TERM=xterm", "LANG=C.UTF-8", "VISUAL=", "EDITOR=", "INPUTRC=<file holding Job.Cfg.RC>"}
 	b, _ := json.MarshalIndent(w, "", " ")
 	os.WriteFile(path, b, 0o644)
